@@ -1,6 +1,23 @@
 // Added to package stream in harness builds only (build overlay).
 package stream
 
+import (
+	"github.com/asaskevich/EventBus"
+
+	"github.com/Trendyol/go-dcp/config"
+	"github.com/Trendyol/go-dcp/leaderelector"
+	"github.com/Trendyol/go-dcp/models"
+	"github.com/Trendyol/go-dcp/servicediscovery"
+)
+
 // VerifSerialClose reports whether the stream closes its vBucket streams one at a time
 // (the mode chosen for servers below 5.5.0).
 func VerifSerialClose(s Stream) bool { return s.(*stream).streamEndNotSupportedData != nil }
+
+// VerifLeaderHandler returns the election callbacks (OnBecomeLeader / OnResignLeader / OnBecomeFollower) of an
+// instance whose identity is already known (what Start() sets up before it runs the elector).
+func VerifLeaderHandler(cfg *config.Dcp, sd servicediscovery.ServiceDiscovery, bus EventBus.Bus, me *models.Identity) leaderelector.Handler {
+	l := NewLeaderElection(cfg, sd, bus).(*leaderElection)
+	l.myIdentity = me
+	return l
+}
